@@ -656,3 +656,113 @@ func reachesSuccessReturn(b *ssa.BasicBlock) bool {
 	}
 	return false
 }
+
+// ruleHandshakeWholeMessage (C18): Handshake.Unmarshal decodes a body only when it is a whole
+// message: the bytes after the 12-byte header are exactly the declared message length, and the
+// fragment length equals the message length. (Fragments reach this codec only after reassembly;
+// accepting fragment_length < length would decode a truncated message as complete.)
+func ruleHandshakeWholeMessage(c *Ctx, r *Report) {
+	const rule = "handshake-whole-message"
+	fn := c.need(r, rule, "(*pkg/protocol/handshake.Handshake).Unmarshal")
+	if fn == nil {
+		return
+	}
+	r.Sites += len(fn.Blocks)
+	var body *ssa.Call
+	for _, b := range fn.Blocks {
+		for _, in := range b.Instrs {
+			if call, ok := in.(*ssa.Call); ok && call.Call.IsInvoke() && call.Call.Method.Name() == "Unmarshal" {
+				body = call
+			}
+		}
+	}
+	if body == nil {
+		r.Unk(rule, short(fn), c.pos(fn.Pos()), "the body decode call was not found")
+		return
+	}
+	const tHdr = "pkg/protocol/handshake.Header"
+	strip := func(v ssa.Value) ssa.Value { return stripConv(v) }
+	isMsgLen := func(v ssa.Value) bool {
+		v = strip(v)
+		if isFieldLoad(v, tHdr, "Length") {
+			return true
+		}
+		if call, ok := v.(*ssa.Call); ok && strings.HasSuffix(calleeName(&call.Call), "util.BigEndianUint24") {
+			// the 24-bit length field sits at bytes 1..3 of the header
+			if sl, ok := call.Call.Args[0].(*ssa.Slice); ok && sl.Low != nil {
+				if k, isC := constInt(sl.Low); isC && k == 1 {
+					if _, isP := sl.X.(*ssa.Parameter); isP {
+						return true
+					}
+				}
+			}
+		}
+		return false
+	}
+	isFragLen := func(v ssa.Value) bool { return isFieldLoad(strip(v), tHdr, "FragmentLength") }
+	isBodyLen := func(v ssa.Value) bool {
+		bo, ok := strip(v).(*ssa.BinOp)
+		if !ok || bo.Op != token.SUB {
+			return false
+		}
+		k, isC := constInt(bo.Y)
+		call, isLen := bo.X.(*ssa.Call)
+		if !isC || k != 12 || !isLen || calleeName(&call.Call) != "builtin:len" {
+			return false
+		}
+		_, isP := call.Call.Args[0].(*ssa.Parameter)
+		return isP
+	}
+	guards := func(bo *ssa.BinOp) bool {
+		mismatch := vBool(bo.Op == token.NEQ)
+		w := (&Walk{Fn: fn, Assume: func(v ssa.Value) (Val, bool) {
+			if v == ssa.Value(bo) {
+				return mismatch, true
+			}
+			return unknown, false
+		}}).FromEntry()
+		return !w.Reached[body]
+	}
+	okBody, okFrag := false, false
+	for _, b := range fn.Blocks {
+		for _, in := range b.Instrs {
+			bo, ok := in.(*ssa.BinOp)
+			if !ok || (bo.Op != token.EQL && bo.Op != token.NEQ) {
+				continue
+			}
+			for _, pr := range [][2]ssa.Value{{bo.X, bo.Y}, {bo.Y, bo.X}} {
+				if isBodyLen(pr[0]) && isMsgLen(pr[1]) && guards(bo) {
+					okBody = true
+				}
+				if isMsgLen(pr[0]) && isFragLen(pr[1]) && guards(bo) {
+					okFrag = true
+				}
+			}
+		}
+	}
+	r.Check(okBody, rule, short(fn)+":body-is-length", c.ipos(body), "the body is decoded only if len(data)-12 equals the declared message length", "the handshake body is decoded without its size being compared with the declared message length (header bytes 1..3): truncated input is accepted as a complete message")
+	r.Check(okFrag, rule, short(fn)+":unfragmented", c.ipos(body), "the body is decoded only if fragment_length equals length", "the handshake body is decoded although fragment_length may differ from length: a fragment is decoded as if it were the whole message")
+}
+
+// ruleUnifiedHeaderSize (C18, datagram partition for DTLS 1.3): the wire size of a unified header
+// is computed from the connection ID of the header that was actually parsed from those bytes,
+// never from a configured length: a record without the C bit has no connection ID on the wire
+// whatever the local configuration says.
+func ruleUnifiedHeaderSize(c *Ctx, r *Report) {
+	const rule = "unified-header-size"
+	n := 0
+	for _, s := range c.CallsToName("pkg/protocol/recordlayer.unifiedHeaderWireSize") {
+		call, ok := s.Call.(*ssa.Call)
+		if !ok || len(call.Call.Args) != 2 {
+			continue
+		}
+		n++
+		r.Sites++
+		good := false
+		if ln, isCall := call.Call.Args[1].(*ssa.Call); isCall && calleeName(&ln.Call) == "builtin:len" {
+			good = isFieldLoad(ln.Call.Args[0], "pkg/protocol/recordlayer.UnifiedHeader", "ConnectionID")
+		}
+		r.Check(good, rule, short(s.Fn), c.ipos(call), "header size from len(parsed header.ConnectionID)", "the unified header's wire size is computed from something other than the connection ID of the parsed header ("+shapeOf(call.Call.Args[1], 0)+"): records without a connection ID on the wire are cut at the wrong place")
+	}
+	r.Floor(rule, n, 2)
+}
